@@ -156,21 +156,80 @@ theorem leaf_keeps {hs : Hashes} {extra : List (List String)} {l : Kvs} {e : J} 
       exact keepsKey_step (fun a => keepA a) hkk (fun a ha => keepA_of_ordinary (hordA a ha))
   | _ => simp [isObj] at ho
 
-theorem multi_keeps {hs : Hashes} {extra : List (List String)} {L : Option J} {A0 : Option Kvs} {k : String}
+/-! ### the pseudo-body of Multi has the same labels and annotations as the essence it wraps -/
+
+theorem lookup_labels_metaKvs (l : Kvs) : lookup "labels" (metaKvs l) = bodyLabels l := by
+  unfold metaKvs bodyLabels
+  cases lookup "metadata" l with
+  | none => rfl
+  | some mv => cases mv <;> rfl
+
+theorem bodyAnn_via_metaKvs (l : Kvs) :
+    bodyAnn l = match lookup "annotations" (metaKvs l) with
+      | some (.obj a) => some a
+      | _ => none := by
+  unfold metaKvs bodyAnn
+  cases lookup "metadata" l with
+  | none => rfl
+  | some mv => cases mv <;> rfl
+
+theorem bodyLabels_congr {l l' : Kvs} (h : lookup "metadata" l' = lookup "metadata" l) : bodyLabels l' = bodyLabels l := by
+  unfold bodyLabels; rw [h]
+
+theorem bodyAnn_congr {l l' : Kvs} (h : lookup "metadata" l' = lookup "metadata" l) : bodyAnn l' = bodyAnn l := by
+  unfold bodyAnn; rw [h]
+
+theorem metaKvs_congr {l l' : Kvs} (h : lookup "metadata" l' = lookup "metadata" l) : metaKvs l' = metaKvs l := by
+  unfold metaKvs; rw [h]
+
+theorem bodyLabels_pseudo (orig : J) (l : Kvs) : bodyLabels (withOwners orig (withKind orig l)) = bodyLabels l := by
+  have hk : lookup "metadata" (withKind orig l) = lookup "metadata" l := lookup_withKind orig l (by decide)
+  unfold withOwners
+  cases ownerRefs orig with
+  | none => exact bodyLabels_congr hk
+  | some o =>
+    simp only []
+    unfold bodyLabels
+    rw [lookup_insert_same]
+    simp only []
+    rw [lookup_insert_other _ _ (by decide : "labels" ≠ "ownerReferences"), metaKvs_congr hk, lookup_labels_metaKvs]
+    rfl
+
+theorem bodyAnn_pseudo (orig : J) (l : Kvs) : bodyAnn (withOwners orig (withKind orig l)) = bodyAnn l := by
+  have hk : lookup "metadata" (withKind orig l) = lookup "metadata" l := lookup_withKind orig l (by decide)
+  unfold withOwners
+  cases ownerRefs orig with
+  | none => exact bodyAnn_congr hk
+  | some o =>
+    simp only []
+    rw [bodyAnn_via_metaKvs l]
+    unfold bodyAnn
+    rw [lookup_insert_same]
+    simp only []
+    rw [lookup_insert_other _ _ (by decide : "annotations" ≠ "ownerReferences"), metaKvs_congr hk]
+
+theorem src_pseudo (orig : J) {l : Kvs} {L : Option J} {A : Option Kvs} (h : lookup "metadata" l = N L A) :
+    Src (withOwners orig (withKind orig l)) L A := by
+  intro ig extra e hig hx hb
+  rw [baseBuild_meta hig hx hb, bodyLabels_pseudo, bodyAnn_pseudo, bodyLabels_of_N h, bodyAnn_of_N h]
+  exact N_filter_nonempty L A (fun a => filtK (keepA a) a) rfl
+
+theorem multi_keeps {hs : Hashes} {extra : List (List String)} {L : Option J} {A0 : Option Kvs} {k : String} {orig : J}
     (hx : ExtraAvoids "metadata" extra) (hord : ∀ a0, A0 = some a0 → Ordinary k a0) :
     ∀ (ls : List DiffBaseLeaf) (l : Kvs) (A : Option Kvs) (e : J),
       lookup "metadata" l = N L A → KeepsKey k A0 A →
       (∀ lf, lf ∈ ls → AvoidKey "metadata" (leafFields lf)) →
       (∀ lf, lf ∈ ls → ∀ p, p ∈ leafPrefixes lf → underPrefix p.toList k = false) →
-      multiBuild hs extra (.obj l) ls = .ok e →
+      multiBuild hs extra orig (.obj l) ls = .ok e →
       ∃ le A', e = .obj le ∧ lookup "metadata" le = N L A' ∧ KeepsKey k A0 A'
   | [], l, A, e, hl, hk, _, _, h => by
     simp [multiBuild] at h; subst h; exact ⟨l, A, rfl, hl, hk⟩
   | lf :: ls, l, A, e, hl, hk, hav, hown, h => by
     simp only [multiBuild] at h
     obtain ⟨e1, h1, h2⟩ := bind_ok h
-    obtain ⟨l1, A1, rfl, hl1, hk1⟩ := leaf_keeps lf (src_N hl) (hav lf List.mem_cons_self) hx hk hord
-      (hown lf List.mem_cons_self) h1
+    have h1' : leafBuild hs extra (.obj (withOwners orig (withKind orig l))) lf = .ok e1 := h1
+    obtain ⟨l1, A1, rfl, hl1, hk1⟩ := leaf_keeps lf (src_pseudo orig hl) (hav lf List.mem_cons_self) hx hk hord
+      (hown lf List.mem_cons_self) h1'
     exact multi_keeps hx hord ls l1 A1 e hl1 hk1 (fun x hx' => hav x (List.mem_cons_of_mem _ hx'))
       (fun x hx' => hown x (List.mem_cons_of_mem _ hx')) h2
 
